@@ -212,6 +212,7 @@ func newTWorld(cfg TConfig) (*TWorld, error) {
 			OnAllocationDeleted: func(src, _ net.Addr, _, user, _ string) {
 				w.ev(Event{Kind: "AllocDeleted", Src: addrStr(src), User: user})
 			},
+			OnAuth: func(_, _ net.Addr, _, _, _, _ string, _ bool) {},
 		},
 	})
 	if err != nil {
